@@ -970,14 +970,14 @@ theorem multiEnc_encTags (vocab ts : List Tag) :
     (clip level, multilabel, and sound-event level — the latter is also what detection's `evaluate_clip`
     uses, theorem `C08_tags_bridge`) -/
 theorem C09_tags_bridge (cast : Rat → Rat) (vocab truth : List Tag) (ps : List PredictedTag) :
-    ccItem vocab.length (CCAnnT.enc vocab ⟨truth⟩) (CCPredT.enc cast vocab ⟨ps⟩) = itemOfTags cast vocab truth ps ∧
-    mlItem vocab.length (CCAnnT.enc vocab ⟨truth⟩) (CCPredT.enc cast vocab ⟨ps⟩) = mlItemOfTags cast vocab truth ps ∧
+    (∀ n m, ccItem vocab.length (CCAnnT.enc vocab ⟨truth, n⟩) (CCPredT.enc cast vocab ⟨ps, m⟩) = itemOfTags cast vocab truth ps) ∧
+    (∀ n m, mlItem vocab.length (CCAnnT.enc vocab ⟨truth, n⟩) (CCPredT.enc cast vocab ⟨ps, m⟩) = mlItemOfTags cast vocab truth ps) ∧
     ∀ (i j : Nat) (g h : Bool),
       seItem vocab.length (TAnn.enc vocab ⟨i, g, truth⟩) (TPred.enc cast vocab ⟨j, h, ps⟩) = itemOfTags cast vocab truth ps := by
   have hb := SE.Proofs.C08.C08_tags_bridge cast vocab ps truth
   refine ⟨?_, ?_, ?_⟩
-  · simp only [ccItem, CCAnnT.enc, CCPredT.enc, itemOfTags, hb.1, hb.2]
-  · simp only [mlItem, CCAnnT.enc, CCPredT.enc, mlItemOfTags, hb.1, multiEnc_encTags]
+  · intro n m; simp only [ccItem, CCAnnT.enc, CCPredT.enc, itemOfTags, hb.1, hb.2]
+  · intro n m; simp only [mlItem, CCAnnT.enc, CCPredT.enc, mlItemOfTags, hb.1, multiEnc_encTags]
   · intro i j g h
     simp only [seItem, TAnn.enc, TPred.enc, itemOfTags, hb.1, hb.2]
 
@@ -1045,6 +1045,9 @@ theorem C09_clip_classification_by_tags (cast : Rat → Rat) (vocab : List Tag) 
     out.clips.map (·.score) = items.map (fun it => some (tcp it)) ∧
     out.score = mean (items.map tcp) := by
   intro items
+  unfold clipClassificationT at h
+  split at h
+  · cases h
   have hs := C09_clip_classification_spec vocab.length _ _ out h
   simp only [pairClips_encClips] at hs
   have hi : List.map (fun x => ccItem vocab.length x.2.1 x.2.2) (List.map (fun x : Nat × CCAnnT × CCPredT =>
@@ -1052,7 +1055,7 @@ theorem C09_clip_classification_by_tags (cast : Rat → Rat) (vocab : List Tag) 
     rw [List.map_map]
     apply List.map_congr_left
     intro x _
-    exact (C09_tags_bridge cast vocab x.2.1.tags x.2.2.tags).1
+    exact (C09_tags_bridge cast vocab x.2.1.tags x.2.2.tags).1 _ _
   rw [hi] at hs
   obtain ⟨h1, h2, h3, h4⟩ := hs
   refine ⟨h1, h2, ?_, ?_, h4⟩
@@ -1062,7 +1065,7 @@ theorem C09_clip_classification_by_tags (cast : Rat → Rat) (vocab : List Tag) 
     apply List.map_congr_left
     intro x _
     simp only [Function.comp, ccClipOut]
-    rw [(C09_tags_bridge cast vocab x.2.1.tags x.2.2.tags).1]
+    rw [← (C09_tags_bridge cast vocab x.2.1.tags x.2.2.tags).1 x.2.1.nEvents x.2.2.nEvents]
 
 /-- `clip_multilabel_classification` end to end on real tags: mean average precision over
     `multilabel_encoding` / `prediction_encoding` (C19) of every evaluated clip; per clip the Jaccard index and
@@ -1077,6 +1080,9 @@ theorem C09_clip_multilabel_by_tags (cast : Rat → Rat) (vocab : List Tag) (pre
     out.clips.map (·.metrics) = rows.map (fun r => [("Jaccard Index", jaccard r), ("Average Precision", exampleAP r)]) ∧
     out.score = mean scores := by
   intro rows
+  unfold clipMultilabelT at h
+  split at h
+  · cases h
   have hs := C09_clip_multilabel_spec vocab.length _ _ scores out h (by simpa [pairClips_encClips] using hlen)
   simp only [pairClips_encClips] at hs
   have hi : List.map (fun x => mlItem vocab.length x.2.1 x.2.2) (List.map (fun x : Nat × CCAnnT × CCPredT =>
@@ -1084,9 +1090,32 @@ theorem C09_clip_multilabel_by_tags (cast : Rat → Rat) (vocab : List Tag) (pre
     rw [List.map_map]
     apply List.map_congr_left
     intro x _
-    exact (C09_tags_bridge cast vocab x.2.1.tags x.2.2.tags).2.1
+    exact (C09_tags_bridge cast vocab x.2.1.tags x.2.2.tags).2.1 _ _
   rw [hi] at hs
   exact ⟨hs.1, hs.2.1, hs.2.2.1, hs.2.2.2.1, hs.2.2.2.2.2⟩
+
+/-- ... and with the closed-form clip scores (`exp(-log_loss)` of one indicator row = product of the clipped
+    probabilities of the true classes, `C09_multilabel_clip_score`): every clip's score is `mlScore` of its two
+    arrays and the overall score is their mean -/
+theorem C09_clip_multilabel_closed_scores (cast : Rat → Rat) (vocab : List Tag) (preds : List (Nat × CCPredT))
+    (anns : List (Nat × CCAnnT)) (out : EvalOut) (h : clipMultilabelClosedT cast vocab preds anns = .ok out) :
+    let rows := (pairClips preds anns).map (fun x => mlItemOfTags cast vocab x.2.1.tags x.2.2.tags)
+    out.metrics = [("Mean Average Precision", meanAveragePrecisionML vocab.length rows)] ∧
+    out.clips.map (·.score) = rows.map (fun r => some (mlScore r)) ∧
+    out.score = mean (rows.map mlScore) := by
+  intro rows
+  have hsc : mlClipScores cast vocab preds anns = rows.map mlScore := by
+    simp only [mlClipScores, rows, List.map_map]; rfl
+  have hlen : (mlClipScores cast vocab preds anns).length = (pairClips preds anns).length := by
+    simp [mlClipScores]
+  have h1 := C09_clip_multilabel_by_tags cast vocab preds anns _ out h hlen
+  unfold clipMultilabelClosedT clipMultilabelT at h
+  split at h
+  · cases h
+  have h2 := C09_clip_multilabel_spec vocab.length _ _ _ out h (by simpa [pairClips_encClips] using hlen)
+  refine ⟨h1.2.2.1, ?_, ?_⟩
+  · rw [h2.2.2.2.2.1, hsc, List.map_map]; rfl
+  · rw [h1.2.2.2.2, hsc]
 
 /-- the sound-event tasks on real tags are the drivers on the encoded sound events (definitional), and every
     item they evaluate is `itemOfTags` of the two sound events it pairs (`C09_tags_bridge`, third clause) -/
@@ -1105,16 +1134,22 @@ private def vocab3 : List Tag := [⟨gbif, "Turdus"⟩, ⟨gbif, "Parus"⟩, ⟨
 private def pred2 : List PredictedTag := [⟨⟨gbif, "Turdus"⟩, 1/2⟩, ⟨⟨ebird, "Turdus"⟩, 1/4⟩]
 
 example : vocab3.Nodup := by decide
-example : (clipClassificationT id vocab3 [(0, ⟨pred2⟩), (1, ⟨pred2⟩)] [(0, ⟨[⟨gbif, "Turdus"⟩]⟩), (1, ⟨[⟨ebird, "Turdus"⟩]⟩)]).toOption.map
+example : (clipClassificationT id vocab3 [(0, {tags := pred2}), (1, {tags := pred2})]
+    [(0, {tags := [⟨gbif, "Turdus"⟩]}), (1, {tags := [⟨ebird, "Turdus"⟩]})]).toOption.map
     (fun o => (o.metrics, o.clips.map (·.score), o.score)) =
     some ([("Balanced Accuracy", 1/2), ("Accuracy", 1/2), ("Top 3 Accuracy", 1)], [some (1/2), some (1/4)], 3/8) := by
   decide +kernel
 example : itemOfTags id vocab3 [⟨{ gbif with uri := some "http://gbif.org/taxon" }, "Turdus"⟩, ⟨ebird, "Turdus"⟩] pred2 = ⟨some 2, [1/2, 0, 1/4]⟩ ∧
     (mlItemOfTags id vocab3 [⟨ebird, "Turdus"⟩, ⟨{ gbif with label := "Taxon" }, "Turdus"⟩] pred2).truth = [false, false, true] := by
   decide +kernel
-example : (clipMultilabelT id vocab3 [(0, ⟨pred2⟩)] [(0, ⟨[⟨ebird, "Turdus"⟩]⟩)] [1/4]).toOption.map
+example : (clipMultilabelT id vocab3 [(0, {tags := pred2})] [(0, {tags := [⟨ebird, "Turdus"⟩]})] [1/4]).toOption.map
     (fun o => (o.metrics, o.clips.map (·.metrics))) =
     some ([("Mean Average Precision", 1/3)], [[("Jaccard Index", 0), ("Average Precision", 1/2)]]) := by
+  decide +kernel
+
+-- known finding C09-K3: an evaluated clip that carries a sound event makes the clip-level tasks raise
+example : (clipClassificationT id vocab3 [(0, {tags := pred2})] [(0, {tags := [⟨gbif, "Turdus"⟩], nEvents := 1})]).toOption.isSome = false ∧
+    (clipClassificationT id vocab3 [(0, {tags := pred2}), (1, {tags := [], nEvents := 2})] [(0, {tags := [⟨gbif, "Turdus"⟩]})]).toOption.isSome = true := by
   decide +kernel
 
 end Tags
